@@ -211,7 +211,9 @@ ClientWrite(env) ==
                  /\ calls' = [calls EXCEPT ![c].closeW = TRUE]
               \/ \* reset: only for a call whose context is done
                  /\ env.r = 1 /\ env.b = 0 /\ env.rtype = "RST_STREAM"
-                 /\ G("ctx", CtxDone(c) \/ "cwrite" \in flt \/ calls[c].sendFailed)
+                 \* (a send whose write was refused tears the stream down; its SendMsg may not have returned yet)
+                 /\ G("ctx", CtxDone(c) \/ "cwrite" \in flt \/ calls[c].sendFailed
+                              \/ ("cwfail" \in flt /\ calls[c].nOk < Len(calls[c].sent)))
                  /\ calls' = [calls EXCEPT ![c].rstW = TRUE]
            /\ UNCHANGED <<byId, hi, gaps>>
   /\ cw' = Append(cw, env)
@@ -677,12 +679,18 @@ SrvUnreg(id, n) ==
 (* blocked, so "still pending" means "will never return unless something    *)
 (* new happens" (C01 never none, C07, C09, C10, C11, C13, C14).             *)
 
+\* By design (no flow control) the client's read loop waits, head of line, behind a stream whose caller has
+\* messages to fetch and neither fetches them nor cancels; while it waits it cannot notice a failed transport.
+CliHol == \E c \in DOMAIN calls : /\ calls[c].kind # "unary" /\ calls[c].opened = "ok" /\ ~CtxDone(c)
+                                  /\ calls[c].recvd < Len(Cin(calls[c].id).bodies)
+CreadSeen == "cread" \in flt /\ ~CliHol
+
 ClientFinished(c) ==
   LET k == calls[c] IN
   IF k.kind = "unary" THEN k.uret
   ELSE \/ k.opened = "err"
        \/ /\ k.opened = "ok"
-          /\ \/ CtxDone(c) \/ "cread" \in flt \/ k.sendFailed
+          /\ \/ CtxDone(c) \/ CreadSeen \/ k.sendFailed
              \/ Cin(k.id).close # "" /\ k.recvd = Len(Cin(k.id).bodies)
 
 PendLegit(p) ==
@@ -691,12 +699,12 @@ PendLegit(p) ==
       x == Cin(k.id) IN
   \/ Stuck
   \/ /\ p.op = "unary"
-     /\ ~CtxDone(c) /\ ~CliDown /\ (k.id = "" \/ x.n = 0)
+     /\ ~CtxDone(c) /\ "cwrite" \notin flt /\ ~CreadSeen /\ (k.id = "" \/ x.n = 0)
   \/ /\ p.op = "recv"
-     /\ ~CtxDone(c) /\ "cread" \notin flt /\ ~k.sendFailed
+     /\ ~CtxDone(c) /\ ~CreadSeen /\ ~k.sendFailed
      /\ x.close = "" /\ ~x.fbad /\ k.recvd = Len(x.bodies) /\ k.term = ""
   \/ /\ p.op = "hdr"
-     /\ ~CtxDone(c) /\ "cread" \notin flt /\ ~k.sendFailed /\ x.n = 0
+     /\ ~CtxDone(c) /\ ~CreadSeen /\ ~k.sendFailed /\ x.n = 0
 
 LiveLegit(v) ==
   LET h == v.h IN
@@ -722,8 +730,7 @@ Quiesce(ngor, nsrv, unreadS, unreadC) ==
   /\ G("robust", (unreadS > 0 /\ cfg.ncli = 1 /\ ~cfg.rawsrv) => SrvDown \/ Stuck \/ NLiveUnary >= 8
                       \/ \E v \in live : v.kind # "unary" /\ v.in # "recv")
   /\ G("pend", (unreadC > 0 /\ cfg.ncli = 1 /\ ~cfg.rawcli) => CliDown \/ Stuck
-                      \/ \E c \in DOMAIN calls : calls[c].kind # "unary" /\ calls[c].opened = "ok" /\ ~CtxDone(c)
-                                                  /\ calls[c].recvd < Len(Cin(calls[c].id).bodies))
+                      \/ CliHol)
   \* every returned handler has its response / close on the wire (C06)
   /\ G("wire", \A h \in DOMAIN hnds : hnds[h].ret /\ ~hnds[h].trW => SrvDown \/ Stuck \/ HCause(h))
   \* bodies for unknown streams were answered with a reset (C12)
